@@ -1579,7 +1579,11 @@ fn cast_num(
                 }
                 std::cmp::Ordering::Less => builder.ins().uextend(int_to, val),
                 std::cmp::Ordering::Equal => val,
-                std::cmp::Ordering::Greater => builder.ins().ireduce(int_to, val),
+                // cranelift converts an i64 to an f32 directly,
+                // reducing it to an i32 first would throw away the upper half of its value
+                std::cmp::Ordering::Greater if cast_from.bit_width() == 64 => val,
+                // todo: an i128 still loses its upper half
+                std::cmp::Ordering::Greater => builder.ins().ireduce(types::I64, val),
             };
 
             // now we can convert that 32 or 64 bit int into a 32 or 64 bit float
